@@ -144,7 +144,7 @@ func main() {
 	}
 	sort.Strings(dirList)
 
-	nY, nFS := 0, 0
+	nY, nFS, nSync := 0, 0, 0
 	for _, d := range dirList {
 		files := goFiles(filepath.Join(absRepo, d))
 		if len(files) == 0 {
@@ -221,6 +221,36 @@ func main() {
 				}
 				edits = append(edits, edit{len(src), 0, tail})
 			}
+			if yieldDirs[d] || (*doFS && d == "storage/fsstore") {
+				// blocking primitives become cooperative ones (see zzsimhook: a task that really blocked
+				// on a lock held by a parked task would stop the simulation)
+				if syncN := importName(f, "sync", "sync"); syncN != "" && syncN != "_" {
+					usedSync := false
+					ast.Inspect(f, func(n ast.Node) bool {
+						se, ok := n.(*ast.SelectorExpr)
+						if !ok {
+							return true
+						}
+						id, ok := se.X.(*ast.Ident)
+						if !ok || id.Obj != nil || id.Name != syncN {
+							return true
+						}
+						switch se.Sel.Name {
+						case "Mutex", "RWMutex", "Once":
+							edits = append(edits, edit{off(id.Pos()), len(id.Name), "zzsimhook"})
+							nSync++
+						case "Cond", "NewCond", "WaitGroup":
+							die("%s uses sync.%s: the simulator has no cooperative version yet (extend zzsimhook)", path, se.Sel.Name)
+						default:
+							usedSync = true
+						}
+						return true
+					})
+					if !usedSync {
+						edits = append(edits, edit{len(src), 0, "\nvar _ " + syncN + ".Locker\n"})
+					}
+				}
+			}
 			if yieldDirs[d] {
 				pkg := f.Name.Name
 				for _, decl := range f.Decls {
@@ -241,8 +271,10 @@ func main() {
 							name = id.Name + "." + name
 						}
 					}
-					edits = append(edits, edit{off(fd.Body.Lbrace) + 1, 0, `zzsimhook.Y("` + pkg + "." + name + `");`})
-					nY++
+					// a yield on entry and one on return (deferred): the points just before a callee runs and
+					// just after it has run -- before its caller goes on -- are both reachable by the scheduler
+					edits = append(edits, edit{off(fd.Body.Lbrace) + 1, 0, `zzsimhook.Y("` + pkg + "." + name + `");defer zzsimhook.Y("` + pkg + "." + name + `.ret");`})
+					nY += 2
 				}
 			}
 			if len(edits) == 0 {
@@ -312,5 +344,5 @@ func main() {
 	if err := os.WriteFile(filepath.Join(absOut, "overlay.json"), js, 0666); err != nil {
 		die("%v", err)
 	}
-	fmt.Printf("instrument: repo=%s files=%d fs_rewrites=%d yields=%d\n", absRepo, gen, nFS, nY)
+	fmt.Printf("instrument: repo=%s files=%d fs_rewrites=%d yields=%d sync_rewrites=%d\n", absRepo, gen, nFS, nY, nSync)
 }
